@@ -216,16 +216,18 @@ class Transformer:
     ]:
         """Return the result of the transform() operation. The fields of type
         CommentsCollection (using Set) are converted to CommentsMap (using List)
-        to allow direct serialization to JSON.
+        to allow direct serialization to JSON. The reasons are sorted because
+        the iteration order of a set of strings depends on the hash seed, and
+        these lists are written to tzdb.json and into the generated comments.
         """
         return (
             self.zones_map, self.rules_map, self.links_map,
-            {k: list(v) for k, v in self.all_removed_zones.items()},
-            {k: list(v) for k, v in self.all_removed_policies.items()},
-            {k: list(v) for k, v in self.all_removed_links.items()},
-            {k: list(v) for k, v in self.all_notable_zones.items()},
-            {k: list(v) for k, v in self.all_notable_policies.items()},
-            {k: list(v) for k, v in self.all_notable_links.items()},
+            {k: sorted(v) for k, v in self.all_removed_zones.items()},
+            {k: sorted(v) for k, v in self.all_removed_policies.items()},
+            {k: sorted(v) for k, v in self.all_removed_links.items()},
+            {k: sorted(v) for k, v in self.all_notable_zones.items()},
+            {k: sorted(v) for k, v in self.all_notable_policies.items()},
+            {k: sorted(v) for k, v in self.all_notable_links.items()},
             self.format_strings,
             self.zone_strings,
         )
